@@ -6,7 +6,7 @@
 (* exhaustively interleaved by TLC.  The sequential (big-step) semantics   *)
 (* of the same operations is RoundSeq.tla; the deviations of the code from *)
 (* the intended design are NAMED choices (LeakChoices, CapDecrChoices,     *)
-(* AtomicSetPhase).  The notarized-block list of C35 is at the end.        *)
+(* AtomicSetPhase).  The notarized-block list of C35 is RoundNB.tla.        *)
 (***************************************************************************)
 EXTENDS RoundSeq
 
@@ -244,28 +244,4 @@ C37_EveryCallReturns == <>[]AllDone
 \* the step machine refines the sequential specification for a single process
 \* (checked by the trace specification on the real code; here only typing)
 
------------------------------------------------------------------------------
-(* C35(b): the per-round notarized block list (entity.go:298-364).          *)
-(* A block is [id, hash, rank]; weight = 2^-rank, so heavier = lower rank.  *)
-
-SeqRemoveAt(s, i) == SubSeq(s, 1, i - 1) \o SubSeq(s, i + 1, Len(s))
-RECURSIVE InsertByRank(_, _)
-InsertByRank(s, b) == IF s = <<>> THEN <<b>>
-                      ELSE IF b.rank < Head(s).rank THEN <<b>> \o s
-                      ELSE <<Head(s)>> \o InsertByRank(Tail(s), b)
-
-\* AddNotarizedBlock: same hash -> unchanged; same rank -> the old one is dropped
-NbAdd(nb, b) ==
-  IF \E i \in 1..Len(nb) : nb[i].hash = b.hash THEN nb
-  ELSE LET same == {i \in 1..Len(nb) : nb[i].rank = b.rank}
-           kept == IF same = {} THEN nb ELSE SeqRemoveAt(nb, CHOOSE i \in same : TRUE)
-       IN  InsertByRank(kept, b)
-
-\* UpdateNotarizedBlock as the property states it: the stored object becomes the given one
-NbUpdate(nb, b) == [i \in 1..Len(nb) |-> IF nb[i].hash = b.hash THEN b ELSE nb[i]]
-\* ... and as written (entity.go:359-363: r.notarizedBlocks[i] = nb): nothing changes
-NbUpdateAsWritten(nb, b) == nb
-
-NbOnePerRank(nb) == \A i, j \in 1..Len(nb) : i # j => nb[i].rank # nb[j].rank
-NbHeaviestFirst(nb) == \A i \in 1..Len(nb) - 1 : nb[i].rank <= nb[i + 1].rank
 =============================================================================
